@@ -291,7 +291,7 @@ func (s *surf2) call(in *Input) (string, string) {
 }
 
 func (s *surf2) probe(in *Input, step func(string)) {
-	step("http GET /v1/ip?size=1 (ipam-cache-rlock)")
+	step("ipam-cache-rlock(http-GET-/v1/ip)")
 	s.e.serve(buildRequest(&httpIn{method: "GET", path: "/v1/ip", rawQuery: "size=1"}))
 	// probe the locks the request named: the pod lock of the first release entry, the pool lock of the pool
 	d := in.data.(*httpIn)
